@@ -15,7 +15,9 @@ def main() -> int:
     seed = int(os.environ.get('VERIF_SEED', '0') or 0)
     try:
         plugin = importlib.import_module(f'props.{a.prop}')
-    except ModuleNotFoundError:
+    except ModuleNotFoundError as e:
+        if e.name != f'props.{a.prop}':
+            raise
         print(f'no check for property {a.prop}', file=sys.stderr)
         return 2
     if a.replay:
